@@ -19,6 +19,7 @@ import vlib
 import tie
 import gen_lock
 import regen_lock
+import lock_stress
 
 RULE = ("cases = (2..8 thread programs of nested API calls / callbacks of the 5 macro kinds, schedule) from "
         "the corpus, a seeded generator (uniform / bursty / round-robin / one-thread-first / short schedules) "
@@ -165,16 +166,16 @@ def main(run):
                               % (ln, co, mo), tag="oracle%d" % nor)
         if mo != co:
             nbad += 1
-            if nbad <= 3:
+            if nbad <= 3 and em is not None and em.group(1) == "0":
                 run.violation("real lock code and model disagree step by step (%s)" % kinds[i],
-                              "case: %s\nmodel: %s\nimpl:  %s\n" % (ln, mo, co), tag="tie%d" % nbad,
-                              no_input=(em is not None and em.group(1) == "0"))
+                              "case: %s\nmodel: %s\nimpl:  %s\n" % (ln, mo, co), tag="tie%d" % nbad, no_input=True)
     run.cov["disagreements"] = nbad
     run.cov["oracle_failures"] = nor
     run.cov["max_in_callback_seen"] = maxincb
     # what the model predicts under the regenerated configuration for the corpus (reported only)
     if diffs:
-        pred = vlib.run_lines(model, [], ["lkv gen " + ln[3:] for ln in lines[:len(vlib.read_corpus("C13"))]])[1]
+        ncorp = len(vlib.read_corpus("C13"))
+        pred = vlib.run_lines(model, [], ["lkv gen " + ln[3:] for ln in lines[:ncorp]])[1][:ncorp]
         detail = "\n".join(diffs) + "\n\nmodel under the regenerated configuration, corpus:\n" + \
             "\n".join("%s -> %s" % (a, b) for a, b in zip(lines, pred)) + "\n\n" + \
             json.dumps({"api_not_ok": diag["api"]["not_ok"], "callbacks_not_wrapped":
@@ -185,9 +186,4 @@ def main(run):
                       tag="config", no_input=True)
     run.cov["tie_seconds"] = round(time.time() - t0, 1)
     # ---- stress on the real API with real threads
-    try:
-        import c13_stress
-    except ImportError:
-        c13_stress = None
-    if c13_stress is not None:
-        c13_stress.stress(run)
+    lock_stress.stress(run)
